@@ -206,6 +206,17 @@ func runWmAdvance(c *Ctx, r *RuleRun) {
 			}
 			// e must be heap[0] and the edge must come from an iteration where pending[e] was not > 0
 			isMin := false
+			// the value heap.Pop hands back is the minimum (the heap's contract is WM.SIGN's business): doneUntil =
+			// heap.Pop(&h).(uint64) behind a test of pending[h[0]] with nothing in between
+			var popCall *ssa.Call
+			if ta, ok := e.(*ssa.TypeAssert); ok {
+				if pc, ok := ta.X.(*ssa.Call); ok {
+					if obj := p.CalleeObj(pc); obj != nil && funcIs(obj, "container/heap", "", "Pop") {
+						popCall = pc
+						isMin = true
+					}
+				}
+			}
 			if ld, ok := e.(*ssa.UnOp); ok && ld.Op == token.MUL {
 				if ia, ok := ld.X.(*ssa.IndexAddr); ok {
 					if k, ok := constInt(ia.Index); ok && k == 0 {
@@ -248,6 +259,25 @@ func runWmAdvance(c *Ctx, r *RuleRun) {
 					lk = y
 				case *ssa.Extract:
 					lk, _ = y.Tuple.(*ssa.Lookup)
+				}
+				if lk != nil && popCall != nil {
+					// pending[h[0]] was read from the heap that is popped right after, with nothing in between
+					if ld, ok := lk.Index.(*ssa.UnOp); ok && ld.Op == token.MUL {
+						if ia, ok := ld.X.(*ssa.IndexAddr); ok {
+							k0, isK0 := constInt(ia.Index)
+							heapArg := popCall.Call.Args[0]
+							if mi, ok := heapArg.(*ssa.MakeInterface); ok {
+								heapArg = mi.X
+							}
+							base := ia.X
+							if u, ok := base.(*ssa.UnOp); ok && u.Op == token.MUL {
+								base = u.X
+							}
+							if isK0 && k0 == 0 && base == heapArg && quietBetween(ld, popCall) {
+								return true
+							}
+						}
+					}
 				}
 				return lk != nil && (lk.Index == e || sameReRead(p, lk.Index, e))
 			})
@@ -358,6 +388,34 @@ func runWmSign(c *Ctx, r *RuleRun) {
 			return
 		}
 		if bo.Op != token.ADD {
+			return
+		}
+		// the delta computed by a helper that is handed the flag: markDelta(m.done) = -1 under done, +1 otherwise
+		for _, side := range []ssa.Value{bo.Y, bo.X} {
+			hc, isCall := side.(*ssa.Call)
+			if !isCall {
+				continue
+			}
+			h := hc.Call.StaticCallee()
+			if h == nil || h.Pkg != f.Pkg || len(h.Blocks) == 0 || len(h.Params) != 1 || len(hc.Call.Args) != 1 {
+				continue
+			}
+			n++
+			good := isLoadOfField(hc.Call.Args[0], a.fDone)
+			nret := 0
+			eachInstr(h, func(i2 ssa.Instruction) {
+				ret, isRet := i2.(*ssa.Return)
+				if !isRet || len(ret.Results) != 1 {
+					return
+				}
+				nret++
+				k, isK := constInt(retOperand(ret, 0))
+				isPrm := func(v ssa.Value) bool { return v == ssa.Value(h.Params[0]) }
+				if !isK || !((k == -1 && boolFactIs(ret, isPrm, true)) || (k == 1 && boolFactIs(ret, isPrm, false))) {
+					good = false
+				}
+			})
+			r.Check(good && nret > 0, p.FnName(f), "pending += done ? -1 : +1", p.Pos(instrPos(mu)), "+1 for a begin mark, -1 for a done mark", "the pending count is not incremented for begin marks and decremented for done marks")
 			return
 		}
 		ph, ok := bo.Y.(*ssa.Phi)
@@ -584,6 +642,12 @@ func sameReRead(p *Prog, a, b ssa.Value) bool {
 	if !dominatesInstr(first, second) {
 		first, second = second, first
 	}
+	return quietBetween(first, second)
+}
+
+// quietBetween: first dominates second, they lie in one block or second's block is entered only from first's, and no
+// call (other than len/cap), store, map update, send, go or defer lies between them.
+func quietBetween(first, second ssa.Instruction) bool {
 	if !dominatesInstr(first, second) {
 		return false
 	}
